@@ -2,6 +2,7 @@
 //! Component-complete products over boundary leaf domains + k-deviation mixtures of a rich type.
 
 use crate::refscale::{PType, PRIMS};
+use crate::lit;
 use scale_info::{
     form::PortableForm, Field, Path, PortableRegistry, PortableType, Type, TypeDef, TypeDefArray,
     TypeDefBitSequence, TypeDefCompact, TypeDefComposite, TypeDefSequence, TypeDefTuple,
@@ -62,7 +63,7 @@ pub fn opts<T: Clone>(d: &[T]) -> Vec<Option<T>> {
 }
 
 fn prim(i: usize) -> PType {
-    Type::new(Path::default(), vec![], PRIMS[i].0.clone(), vec![])
+    lit::ty(lit::path(vec![]), vec![], lit::primitive(PRIMS[i].0.clone()), vec![])
 }
 
 pub fn mk(
@@ -71,11 +72,11 @@ pub fn mk(
     def: TypeDef<PortableForm>,
     docs: Vec<String>,
 ) -> PType {
-    Type::new(Path::from_segments_unchecked(path), params, def, docs)
+    lit::ty(path_of(path), params, def, docs)
 }
 
 pub fn fld(name: Option<String>, ty: u32, tn: Option<String>, docs: Vec<String>) -> Field<PortableForm> {
-    Field::new(name, ty.into(), tn, docs)
+    lit::field(name, ty.into(), tn, docs)
 }
 
 pub fn all_fields(d: &Dom) -> Vec<Field<PortableForm>> {
@@ -113,7 +114,7 @@ pub fn all_variants(d: &Dom) -> Vec<Variant<PortableForm>> {
         for f in &fls {
             for &ix in &d.u8s {
                 for dc in &docs {
-                    o.push(Variant::new(n.clone(), f.clone(), ix, dc.clone()));
+                    o.push(lit::variant(n.clone(), f.clone(), ix, dc.clone()));
                 }
             }
         }
@@ -124,9 +125,9 @@ pub fn all_variants(d: &Dom) -> Vec<Variant<PortableForm>> {
 pub fn variant_reps(d: &Dom) -> Vec<Variant<PortableForm>> {
     let f = field_reps(d);
     vec![
-        Variant::new("A".into(), vec![], 0, vec![]),
-        Variant::new("é✓".into(), vec![f[1].clone()], 255, vec!["d".into()]),
-        Variant::new("".into(), vec![f[0].clone(), f[2].clone()], 1, vec!["".into()]),
+        lit::variant("A".into(), vec![], 0, vec![]),
+        lit::variant("é✓".into(), vec![f[1].clone()], 255, vec!["d".into()]),
+        lit::variant("".into(), vec![f[0].clone(), f[2].clone()], 1, vec!["".into()]),
     ]
 }
 
@@ -134,7 +135,7 @@ pub fn all_params(d: &Dom) -> Vec<TypeParameter<PortableForm>> {
     let mut o = Vec::new();
     for n in &d.strings {
         for i in opts(&d.ids) {
-            o.push(TypeParameter::new_portable(n.clone(), i.map(Into::into)));
+            o.push(lit::param(n.clone(), i.map(Into::into)));
         }
     }
     o
@@ -142,9 +143,9 @@ pub fn all_params(d: &Dom) -> Vec<TypeParameter<PortableForm>> {
 
 pub fn param_reps() -> Vec<TypeParameter<PortableForm>> {
     vec![
-        TypeParameter::new_portable("T".into(), Some(0.into())),
-        TypeParameter::new_portable("".into(), None),
-        TypeParameter::new_portable("é✓".into(), Some(u32::MAX.into())),
+        lit::param("T".into(), Some(0.into())),
+        lit::param("".into(), None),
+        lit::param("é✓".into(), Some(u32::MAX.into())),
     ]
 }
 
@@ -152,27 +153,27 @@ pub fn param_reps() -> Vec<TypeParameter<PortableForm>> {
 pub fn all_defs(d: &Dom) -> Vec<TypeDef<PortableForm>> {
     let mut o: Vec<TypeDef<PortableForm>> = Vec::new();
     for fl in lists(&field_reps(d)) {
-        o.push(TypeDefComposite::new(fl).into());
+        o.push(lit::composite(fl).into());
     }
     for vl in lists(&variant_reps(d)) {
-        o.push(TypeDefVariant::new(vl).into());
+        o.push(lit::variants(vl).into());
     }
     for &i in &d.ids {
-        o.push(TypeDefSequence::new(i.into()).into());
-        o.push(TypeDefCompact::new(i.into()).into());
+        o.push(lit::sequence(i.into()).into());
+        o.push(lit::compact(i.into()).into());
         for &l in &d.lens {
-            o.push(TypeDefArray::new(l, i.into()).into());
+            o.push(lit::array(l, i.into()).into());
         }
         for &j in &d.ids {
-            o.push(TypeDefBitSequence::new_portable(i.into(), j.into()).into());
-            o.push(TypeDefTuple::new_portable(vec![i.into(), j.into()]).into());
+            o.push(lit::bits(i.into(), j.into()).into());
+            o.push(lit::tuple(vec![i.into(), j.into()]).into());
         }
-        o.push(TypeDefTuple::new_portable(vec![i.into()]).into());
+        o.push(lit::tuple(vec![i.into()]).into());
     }
-    o.push(TypeDefTuple::new_portable(vec![]).into());
-    o.push(TypeDefTuple::new_portable(vec![16384u32.into(); 64]).into());
+    o.push(lit::tuple(vec![]).into());
+    o.push(lit::tuple(vec![16384u32.into(); 64]).into());
     for p in PRIMS.iter() {
-        o.push(p.0.clone().into());
+        o.push(lit::primitive(p.0.clone()));
     }
     o
 }
@@ -181,14 +182,14 @@ pub fn def_reps(d: &Dom) -> Vec<TypeDef<PortableForm>> {
     let f = field_reps(d);
     let v = variant_reps(d);
     vec![
-        TypeDefComposite::new(vec![f[1].clone()]).into(),
-        TypeDefVariant::new(vec![v[0].clone(), v[1].clone()]).into(),
-        TypeDefSequence::new(1.into()).into(),
-        TypeDefArray::new(256, 64.into()).into(),
-        TypeDefTuple::new_portable(vec![0.into(), 16384.into()]).into(),
-        PRIMS[8].0.clone().into(),
-        TypeDefCompact::new(63.into()).into(),
-        TypeDefBitSequence::new_portable(1.into(), (1u32 << 30).into()).into(),
+        lit::composite(vec![f[1].clone()]).into(),
+        lit::variants(vec![v[0].clone(), v[1].clone()]).into(),
+        lit::sequence(1.into()).into(),
+        lit::array(256, 64.into()).into(),
+        lit::tuple(vec![0.into(), 16384.into()]).into(),
+        lit::primitive(PRIMS[8].0.clone()),
+        lit::compact(63.into()).into(),
+        lit::bits(1.into(), (1u32 << 30).into()).into(),
     ]
 }
 
@@ -229,22 +230,22 @@ impl<'a> Rich<'a> {
             dl[c[9]].clone(),
         );
         let nf = [1usize, 0, 2][c[12]];
-        let variant = Variant::new(
+        let variant = lit::variant(
             d.strings[c[3]].clone(),
             vec![field; nf],
             d.u8s[c[4]],
             dl[c[5]].clone(),
         );
-        let param = TypeParameter::new_portable(
+        let param = lit::param(
             d.strings[c[1]].clone(),
             opts(&d.ids)[c[2]].map(Into::into),
         );
-        PortableType::new(
+        lit::entry(
             d.ids[c[11]],
             mk(
                 sl[c[0]].clone(),
                 vec![param],
-                TypeDefVariant::new(vec![variant]).into(),
+                lit::variants(vec![variant]).into(),
                 dl[c[10]].clone(),
             ),
         )
@@ -281,16 +282,16 @@ impl<'a> Rich<'a> {
 pub fn entries(thorough: bool) -> Vec<PortableType> {
     let d = dom(thorough);
     let mut o: Vec<PortableType> = Vec::new();
-    let p0 = |t: PType| PortableType::new(0, t);
+    let p0 = |t: PType| lit::entry(0, t);
     // component-complete products embedded in a default type
     for f in all_fields(&d) {
-        o.push(p0(mk(vec![], vec![], TypeDefComposite::new(vec![f]).into(), vec![])));
+        o.push(p0(mk(vec![], vec![], lit::composite(vec![f]).into(), vec![])));
     }
     for v in all_variants(&d) {
-        o.push(p0(mk(vec![], vec![], TypeDefVariant::new(vec![v]).into(), vec![])));
+        o.push(p0(mk(vec![], vec![], lit::variants(vec![v]).into(), vec![])));
     }
     for p in all_params(&d) {
-        o.push(p0(mk(vec![], vec![p], PRIMS[0].0.clone().into(), vec![])));
+        o.push(p0(mk(vec![], vec![p], lit::primitive(PRIMS[0].0.clone()), vec![])));
     }
     for df in all_defs(&d) {
         o.push(p0(mk(vec![], vec![], df, vec![])));
@@ -310,7 +311,7 @@ pub fn entries(thorough: bool) -> Vec<PortableType> {
     }
     // entry ids
     for &i in &d.ids {
-        o.push(PortableType::new(i, prim(3)));
+        o.push(lit::entry(i, prim(3)));
     }
     o
 }
@@ -321,27 +322,27 @@ pub fn entry_reps(_thorough: bool) -> Vec<PType> {
     let v = variant_reps(&d);
     let mut o = vec![
         prim(3),
-        mk(vec![], vec![], TypeDefSequence::new(0.into()).into(), vec![]),
+        mk(vec![], vec![], lit::sequence(0.into()).into(), vec![]),
         mk(
             vec!["m".into(), "S".into()],
-            vec![TypeParameter::new_portable("T".into(), Some(1.into()))],
-            TypeDefComposite::new(vec![f[1].clone(), f[0].clone()]).into(),
+            vec![lit::param("T".into(), Some(1.into()))],
+            lit::composite(vec![f[1].clone(), f[0].clone()]).into(),
             vec!["doc".into()],
         ),
         mk(
             vec!["E".into()],
-            vec![TypeParameter::new_portable("U".into(), None)],
-            TypeDefVariant::new(vec![v[0].clone(), v[2].clone()]).into(),
+            vec![lit::param("U".into(), None)],
+            lit::variants(vec![v[0].clone(), v[2].clone()]).into(),
             vec![],
         ),
-        mk(vec![], vec![], TypeDefTuple::new_portable(vec![2.into(), 0.into()]).into(), vec![]),
-        mk(vec![], vec![], TypeDefBitSequence::new_portable(0.into(), 1.into()).into(), vec![]),
+        mk(vec![], vec![], lit::tuple(vec![2.into(), 0.into()]).into(), vec![]),
+        mk(vec![], vec![], lit::bits(0.into(), 1.into()).into(), vec![]),
     ];
     {
-        o.push(mk(vec![], vec![], TypeDefArray::new(3, 2.into()).into(), vec![]));
-        o.push(mk(vec![], vec![], TypeDefCompact::new(0.into()).into(), vec![]));
+        o.push(mk(vec![], vec![], lit::array(3, 2.into()).into(), vec![]));
+        o.push(mk(vec![], vec![], lit::compact(0.into()).into(), vec![]));
         o.push(prim(2));
-        o.push(mk(vec!["P".into()], vec![], TypeDefComposite::new(vec![]).into(), vec![]));
+        o.push(mk(vec!["P".into()], vec![], lit::composite(vec![]).into(), vec![]));
     }
     o
 }
@@ -359,7 +360,7 @@ pub fn registries(thorough: bool) -> Vec<PortableRegistry> {
     let mut cells: Vec<PortableType> = Vec::new();
     for r in &reps {
         for &i in &ids {
-            cells.push(PortableType::new(i, r.clone()));
+            cells.push(lit::entry(i, r.clone()));
         }
     }
     for a in &cells {
@@ -372,7 +373,13 @@ pub fn registries(thorough: bool) -> Vec<PortableRegistry> {
     }
     // one 64-entry registry (2-byte length prefix) and one 70-entry dense one
     o.push(PortableRegistry {
-        types: (0..64).map(|i| PortableType::new(i, reps[(i as usize) % reps.len()].clone())).collect(),
+        types: (0..64).map(|i| lit::entry(i, reps[(i as usize) % reps.len()].clone())).collect(),
     });
     o
+}
+
+/// a portable path built through the public field (no library constructor touches the segments)
+#[allow(dead_code)]
+fn path_of<I: IntoIterator<Item = String>>(segments: I) -> scale_info::Path<scale_info::form::PortableForm> {
+    scale_info::Path { segments: segments.into_iter().collect() }
 }
